@@ -61,15 +61,93 @@ def rule_TR1(rep, prog, q, ts):
                     sample={"site": t.origin, "what": "acquire" if acq else "enqueue", "old_max": hex(t.old.uhi)}, details={"guards": t.old.notes})
 
 
-def _not_suspended_tests(fn, prog, q):
-    """icmp instructions that test a freshly loaded dq_state against NEEDS_ACTIVATION; value True means suspended"""
+def _ceval(fn, op, ld, val, depth=0):
+    """concrete value of operand `op` when load `ld` yields `val`; None if the chain is not a pure function of that load"""
+    M64 = (1 << 64) - 1
+    if op[0] == "c":
+        return op[1] & M64
+    if op[0] != "i" or depth > 8:
+        return None
+    i = fn.insts[op[1]]
+    if i is ld:
+        return val
+    if i.op in ("trunc", "zext"):
+        v = _ceval(fn, i.ops[0], ld, val, depth + 1)
+        if v is None:
+            return None
+        bits = {"i1": 1, "i8": 8, "i16": 16, "i32": 32, "i64": 64}.get(i.d.get("ty"), 64)
+        return v & ((1 << bits) - 1)
+    if i.op in ("and", "or", "xor", "lshr", "shl", "udiv", "add", "sub"):
+        x, y = _ceval(fn, i.ops[0], ld, val, depth + 1), _ceval(fn, i.ops[1], ld, val, depth + 1)
+        if x is None or y is None:
+            return None
+        if i.op == "and": return x & y
+        if i.op == "or": return x | y
+        if i.op == "xor": return x ^ y
+        if i.op == "lshr": return x >> y if y < 64 else 0
+        if i.op == "shl": return (x << y) & M64 if y < 64 else 0
+        if i.op == "udiv": return x // y if y else None
+        if i.op == "add": return (x + y) & M64
+        if i.op == "sub": return (x - y) & M64
+    if i.op == "icmp":
+        x, y = _ceval(fn, i.ops[0], ld, val, depth + 1), _ceval(fn, i.ops[1], ld, val, depth + 1)
+        if x is None or y is None:
+            return None
+        return {"eq": x == y, "ne": x != y, "uge": x >= y, "ugt": x > y, "ule": x <= y, "ult": x < y}.get(i.d["pred"])
+    return None
+
+
+def _root_load(fn, op, prog, depth=0):
+    if op[0] != "i" or depth > 8:
+        return None
+    i = fn.insts[op[1]]
+    if i.op == "load":
+        return i if (prog.fields(i) & DQ_STATE) else None
+    if i.op == "call" and i.callee == "_dispatch_wait_prepare":
+        return i          # returns the dq_state it just sampled (and marked with the waiter's override)
+    if i.op in ("trunc", "zext", "and", "lshr", "udiv"):
+        return _root_load(fn, i.ops[0], prog, depth + 1)
+    return None
+
+
+def _suspension_tests(fn, prog, q):
+    """(icmp, polarity, load, missed_bits): every compare that is a pure function of one freshly loaded dq_state and separates states carrying an inline
+    suspend count from the idle state 0. polarity True: icmp true means suspended. missed_bits: suspension-carrying bits (NEEDS_ACTIVATION, INACTIVE,
+    HAS_SIDE_SUSPEND_CNT, the inline count) for which the test says "not suspended"."""
     out = []
+    susp = [b for b in range(64) if (1 << b) >= q.NEEDS_ACTIVATION]
     for i in fn.all_insts():
-        if i.op == "icmp" and i.d["pred"] in ("uge", "ult", "ugt", "ule"):
-            a, b = fn.inst(i.ops[0]), i.ops[1]
-            if a is not None and a.op == "load" and (prog.fields(a) & DQ_STATE) and b[0] == "c" and b[1] in (q.NEEDS_ACTIVATION, q.NEEDS_ACTIVATION - 1):
-                out.append((i, i.d["pred"] in ("uge", "ugt"), a))
+        if i.op != "icmp" or i.ops[1][0] != "c":
+            continue
+        ld = _root_load(fn, i.ops[0], prog)
+        if ld is None:
+            continue
+        z = _ceval(fn, ("i", i.id), ld, 0)
+        vals = {b: _ceval(fn, ("i", i.id), ld, 1 << b) for b in range(64)}
+        if z is None or any(v is None for v in vals.values()):
+            continue
+        hi = [b for b in range(64) if (1 << b) >= q.SUSPEND_INTERVAL]
+        if not all(vals[b] != z for b in hi):
+            continue      # does not look at the inline suspend count: some other test (width, enqueued, ...)
+        if any(vals[b] != z for b in range(64) if (1 << b) < q.NEEDS_ACTIVATION):
+            continue      # also fires on non-suspension bits: a different predicate
+        missed = [b for b in susp if vals[b] == z]
+        out.append((i, not z, ld, missed))
     return out
+
+
+def _not_suspended_tests(fn, prog, q):
+    """complete suspension tests only (see _suspension_tests)"""
+    return [(i, pol, ld) for i, pol, ld, missed in _suspension_tests(fn, prog, q) if not missed]
+
+
+def _incomplete_tests(rep, rid, fn, prog, q):
+    bad = [(i, missed) for i, pol, ld, missed in _suspension_tests(fn, prog, q) if missed]
+    for i, missed in bad:
+        rep.require(rid, False, i.loc, fn.name, "suspension-test-ignores-bits",
+                    "%s decides 'not suspended' from a test of dq_state that ignores bit(s) %s: with the inline count at 0 and suspensions parked in the side "
+                    "counter (HAS_SIDE_SUSPEND_CNT) - or an inactive queue - the queue is treated as runnable" % (fn.name, missed), sample={"test": i.loc})
+    return bad
 
 
 def rule_MP2(rep, prog, q):
@@ -78,8 +156,9 @@ def rule_MP2(rep, prog, q):
     fn = prog.fn("_dispatch_lane_drain")
     rep.saw(fn)
     tests = _not_suspended_tests(fn, prog, q)
+    inc = _incomplete_tests(rep, rid, fn, prog, q)
     callouts = calls_named(fn, ("_dispatch_continuation_pop_inline", "_dispatch_continuation_redirect_push", "_dispatch_non_barrier_waiter_redirect_or_wake"))
-    if not tests or not callouts:
+    if (not tests and not inc) or not callouts:
         rep.unknown(rid, "anchor vanished in _dispatch_lane_drain (tests=%d callouts=%d)" % (len(tests), len(callouts)))
     starts = [entry_point(fn)] + callouts
     bad = []
@@ -108,6 +187,7 @@ def rule_MP2(rep, prog, q):
     fn = prog.fn("_dispatch_lane_barrier_complete")
     rep.saw(fn)
     tests = _not_suspended_tests(fn, prog, q)
+    _incomplete_tests(rep, rid, fn, prog, q)
     hand = calls_named(fn, ("_dispatch_lane_drain_barrier_waiter", "_dispatch_lane_drain_non_barriers"))
     if not hand:
         rep.unknown(rid, "anchor vanished: no hand-off call in _dispatch_lane_barrier_complete")
@@ -119,6 +199,27 @@ def rule_MP2(rep, prog, q):
     rep.require(rid, ok, fn.file + ":" + str(fn.d.get("line")), fn.name, "barrier-complete-handoff-while-suspended",
                 "_dispatch_lane_barrier_complete hands the queue to a blocked dispatch_sync caller / redirects readers without having seen the queue "
                 "not suspended: work starts on a suspended queue", sample={"handoffs": len(hand), "suspend_tests": len(tests)})
+
+
+def rule_MP5(rep, prog, q):
+    rid = rep.rule("C06-MP5", "a blocked dispatch_sync caller computes where to wait by walking the target chain only through queues it has seen NOT suspended "
+                   "(an inactive queue has no role yet: walking through it runs off the end of the hierarchy); a suspended / inactive hop ends the walk", floor=2)
+    n = 0
+    for name in ("_dispatch_wait_compute_wlh", "__DISPATCH_WAIT_FOR_QUEUE__"):
+        fn = prog.fn(name)
+        rep.saw(fn)
+        tests = _not_suspended_tests(fn, prog, q)
+        _incomplete_tests(rep, rid, fn, prog, q)
+        for c in calls_named(fn, "_dispatch_wait_compute_wlh"):
+            n += 1
+            cx = paths.dom_ctx(fn, c)
+            ok = any(cx.truth.get(t.id) is (not pol) for t, pol, ld in tests)
+            rep.require(rid, ok, c.loc, fn.name, "wlh-walk-through-suspended-queue",
+                        "%s descends to the next target queue without having seen the current hop not suspended: a dispatch_sync caller blocked behind a queue "
+                        "that targets a not-yet-activated queue walks through it past the root queue (NULL target) and crashes instead of running after the "
+                        "activation" % fn.name, sample={"call": c.loc, "suspend_tests": len(tests)})
+    if n < 2:
+        rep.unknown(rid, "expected 2 descents of the target chain, found %d" % n)
 
 
 def rule_AI3(rep, prog, q, ex):
@@ -282,6 +383,8 @@ def run(rep, tier="quick", srcdir=None, only=None):
         rule_TR1(rep, prog, q, ts)
     if want("C06-MP2"):
         rule_MP2(rep, prog, q)
+    if want("C06-MP5"):
+        rule_MP5(rep, prog, q)
     if want("C06-AI3"):
         rule_AI3(rep, prog, q, ex)
     if want("C06-MP4"):
